@@ -27,8 +27,10 @@ from vf import common
 CHECK = dict(
     id="C41", level="exploration",
     rule=("random x86-32/x86-64 programs (<= ~60 instructions, if/else nesting <= 3, loops with <= 4 trips, "
-          "table-free) assembled by miasm from templates: ALU/shift/rotate/extension/LEA/IMUL/DIV/CMOV/SETcc/"
-          "ADC/BSWAP/spill-reload statements, conditions from CMP/TEST/ALU flags/BT with all 16 condition codes; "
+          "memory addressed through concrete pointers except constant-table lookups) assembled by miasm from templates: ALU/shift/rotate/extension/LEA/IMUL/DIV/CMOV/SETcc/"
+          "ADC/BSWAP/spill-reload statements, conditions from CMP/TEST/ALU flags/BT with all 16 condition codes, "
+          "and lookups in constant byte/dword tables through an input-derived masked index (compared value in "
+          "the last/first/middle cell of the reachable range or absent); "
           "inputs = 1-3 symbolized registers, a symbolized 4-8 byte buffer (symbolize_memory) or 1-2 stack "
           "arguments (update_state on ExprMem); explored with code-cov / branch-cov / path-cov for a bounded "
           "number of candidate inputs; distinct = (program, strategy, engine, solution key)"),
@@ -128,6 +130,7 @@ def new_jitter(machine, engine, prog, image, fin, inp):
     jitter.vm.add_memory_page(P.CODE_ADDR, PAGE_READ | PAGE_WRITE, image + b"\x90" * 16, "code")
     jitter.vm.add_memory_page(P.BUF_ADDR, PAGE_READ | PAGE_WRITE, b"\x00" * 0x40, "buf")
     jitter.vm.add_memory_page(P.SCRATCH_ADDR, PAGE_READ | PAGE_WRITE, bytes(prog["scratch"]), "scratch")
+    jitter.vm.add_memory_page(P.TABLE_ADDR, PAGE_READ | PAGE_WRITE, bytes(prog["table"]), "table")
     jitter.init_stack()
     bits = prog["bits"]
     push = jitter.push_uint32_t if bits == 32 else jitter.push_uint64_t
@@ -220,7 +223,18 @@ def make_dse_class():
         def handle_solution(self, model, destination):
             key = self._key_for_solution_strategy(destination)
             super(RecDSE, self).handle_solution(model, destination)
-            self.v_solutions.append((self.v_ctx, destination, key, model))
+            # does the deciding destination expression read memory through a symbolic address?
+            box = [False]
+
+            def look(e):
+                if e.is_mem() and not e.ptr.is_int():
+                    box[0] = True
+                return e
+            try:
+                self.eval_expr(self.lifter.IRDst).visit(look)
+            except Exception:
+                pass
+            self.v_solutions.append((self.v_ctx + (box[0],), destination, key, model))
     return RecDSE
 
 
@@ -364,7 +378,8 @@ def run_program(rec, rng, machine, prog, engine, strat_name, max_runs, tag):
     wit0 = dict(machine=machine.name, engine=engine, strategy=strat_name, mode=prog["mode"],
                 program=prog["text"], init_regs={k: hex(v) for k, v in prog["init_regs"].items()},
                 sym_regs=prog["sym_regs"], buf_len=prog["buf_len"], nargs=prog["nargs"],
-                scratch=bytes(prog["scratch"]).hex(), code=image.hex(), fin=hex(fin))
+                scratch=bytes(prog["scratch"]).hex(), table=bytes(prog["table"]).hex(), code=image.hex(),
+                fin=hex(fin))
     RecDSE = make_dse_class()
     jitter, loc_db = new_jitter(machine, engine, prog, image, fin, prog["input0"])
     jitter.init_run(P.CODE_ADDR)
@@ -467,12 +482,14 @@ def run_program(rec, rng, machine, prog, engine, strat_name, max_runs, tag):
         rec.count("dse_runs_completed")
         rec.count("instructions_followed", len(dse.v_trace))
         trace = list(dse.v_trace)
-        for (k_b, sub), dest, key, model in dse.v_solutions:
+        for (k_b, sub, symptr), dest, key, model in dse.v_solutions:
             nsol_total += 1
             rec.count("solutions")
             rec.count("solutions:" + strat_name)
             rec.count("solutions:" + engine)
             rec.count("solutions:%s:%s" % (machine.name, prog["mode"]))
+            if symptr:
+                rec.count("solutions:deciding_read_has_symbolic_address")
             try:
                 new_inp = model_to_input(dse, model, syms)
             except Exception as exc:
@@ -548,6 +565,8 @@ def run_program(rec, rng, machine, prog, engine, strat_name, max_runs, tag):
                 rec.count("solutions_verified:" + engine)
                 rec.count("solutions_verified:%s" % machine.name)
                 rec.count("solutions_verified:mode_" + cls)
+                if symptr:
+                    rec.count("solutions_verified:deciding_read_has_symbolic_address")
                 if prog.get("bufwrite"):
                     rec.count("solutions_verified:program_stores_into_symbolized_buffer")
                 if prog["kinds"].get("struct:loop_sym"):
@@ -606,6 +625,8 @@ def run_shard(params, rec):
         rec.count("programs:" + strat)
         for k in prog["kinds"]:
             rec.count("kind:" + k.split(":")[0])
+            if k.startswith("cond:table"):
+                rec.count("programs_with_" + k[5:])
         if made % 3 == 1:
             rec.sample(dict(machine=tag, mode=prog["mode"], strategy=strat, engine=engine,
                             program=prog["text"][:1200]), limit=3)
@@ -631,6 +652,14 @@ def floors(tier, counters, evaluations):
                 miss.append("%s/%s inputs: only %d solutions" % (m, mode, counters.get("solutions:%s:%s" % (m, mode), 0)))
     if counters.get("checked_on_jitter", 0) < (60 if tier == "quick" else 600):
         miss.append("only %d solutions checked on the jitter" % counters.get("checked_on_jitter", 0))
+    if counters.get("solutions_verified:deciding_read_has_symbolic_address", 0) + \
+            counters.get("failures", 0) < (10 if tier == "quick" else 100):
+        miss.append("only %d solutions whose deciding read has an input-dependent address" % counters.get(
+            "solutions:deciding_read_has_symbolic_address", 0))
+    for where in ("last", "first", "absent"):
+        got = sum(v for k, v in counters.items() if k.startswith("programs_with_table_") and k.endswith(where))
+        if got < (4 if tier == "quick" else 40):
+            miss.append("only %d programs branch on a table value placed '%s'" % (got, where))
     if counters.get("rejected", 0) > 0.5 * max(1, progs):
         miss.append("more than half of the programs were rejected as unsupported")
     return miss
